@@ -18,4 +18,6 @@ CONSTANTS
   AttOpts = {"none"}
   OkRecomputed = TRUE
   ParentForcesChildDebug = TRUE
+  PreOpts = {}
+  AliasedDefaults = FALSE
 INVARIANT InvReturnedWellFormed
